@@ -158,7 +158,10 @@ func (c *Ctx) correspond(stage string, srcs []string) int {
 			if impl.s != resp[i] {
 				r.Mismatch(stage, s, resp[i], impl.s+" "+impl.msg)
 			}
-			c.refCompare(stage, s)
+			c.refCompare(stage, s, impl)
+			if impl.tree != nil {
+				c.eraseCheck(s, impl.tree)
+			}
 		}
 	}()
 	select {
@@ -1004,7 +1007,7 @@ func runC11(c *Ctx) {
 		{"postfix", []string{"a", ".", "?.", "[", "]", ":", "b", "(", ")", "1", "-"}, 4, 6},
 		{"call", []string{"f", "len", "all", "(", ")", ",", "{", "}", "#", ".", "a"}, 4, 6},
 		{"coll", []string{"[", "]", "{", "}", ",", ":", "a", "1", "'s'", "(", ")"}, 4, 6},
-		{"lit", []string{"'x'", "'['", "matches", "true", "nil", "1.5", "0x1F", "a", "(", ")", "1e", "9223372036854775808", "=", "..", "?:"}, 4, 5},
+		{"lit", []string{"'x'", "'['", "matches", "true", "nil", "1.5", "0x1F", "a", "(", ")", "9223372036854775808", "=", ".."}, 4, 5},
 	}
 	for _, a := range alphas {
 		n := a.nq
